@@ -157,7 +157,7 @@ pub fn strategy() -> BoxedStrategy<Case> {
 }
 
 pub fn run(ctx: &Ctx) -> i32 {
-    let cases = ctx.tier.pick(4_000, 240_000);
+    let cases = ctx.tier.pick(8_000, 300_000);
     let agg = run_prop(ctx, "case", 16, cases, strategy, |case: &Case| {
         let (violations, stats, trace) = eval_case(case);
         let mut classes = Vec::new();
